@@ -657,7 +657,7 @@ int main(int argc, char** argv) {
     {"NumCalcApplicationTools.getVector.words", {4, 5}},
     {"NumCalcApplicationTools.getVector.step-below-resolution", {1, 1}},
     {"NumCalcApplicationTools.seqFromString.int-limits", {1, 1}},
-    {"readDiscreteDistribution.Simple", {2, 3}},
+    {"readDiscreteDistribution.Simple", {3, 3}},           // values + probas + ranges: three arguments
     {"readDiscreteDistribution.Uniform", {3, 4}},          // a well-formed Uniform needs three arguments
     {"readDiscreteDistribution.compound", {4, 5}},
   };
